@@ -280,6 +280,10 @@ func genPubWorld(r *rand.Rand, n int, emit func(Op)) {
 				/* embedded impostor: evil inlines "alice" with alice's id */
 				return g.embed(h, alice)
 			}
+			if r.Intn(3) == 0 {
+				/* an author that cannot be fetched, listed before the others */
+				return []any{g.url(h, "no-such-actor"), g.refTo(h, malloryURL, mallory), g.refTo(h, aliceURL, alice)}
+			}
 			return []any{g.refTo(h, aliceURL, alice), g.refTo(h, malloryURL, mallory)}
 		}
 		notes := []string{}
@@ -342,6 +346,7 @@ func genPubWorld(r *rand.Rand, n int, emit func(Op)) {
 		}
 		/* alice's outbox: her own activities and impostors */
 		acts := []any{}
+		actFields := []map[string]any{}
 		for a := 0; a < r.Intn(6); a++ {
 			h := pick(r, []int{home, home, evil})
 			k := r.Intn(len(notes))
@@ -376,6 +381,7 @@ func genPubWorld(r *rand.Rand, n int, emit func(Op)) {
 			}
 			au := g.serve(h, fmt.Sprintf("act%d", a), fields)
 			acts = append(acts, g.refTo(home, au, fields))
+			actFields = append(actFields, fields)
 		}
 		/* mallory's outbox: her own activity plus alice's (by reference): impostors there */
 		mact := g.serve(evil, "mact", map[string]any{"type": "Create", "id": g.url(evil, "mact"), "actor": malloryURL, "object": notes[0]})
@@ -394,7 +400,30 @@ func genPubWorld(r *rand.Rand, n int, emit func(Op)) {
 			}
 		}
 		outboxPage2 := map[string]any{"type": "OrderedCollectionPage", "orderedItems": acts[len(acts)/2:]}
-		outboxPage1 := map[string]any{"type": "OrderedCollectionPage", "orderedItems": acts[:len(acts)/2], "next": outboxPage2}
+		var page2ref any = outboxPage2
+		if r.Intn(4) == 0 {
+			/* the second page is named by URL, lives on another host (directly or behind a
+			   redirect) and may carry no id of its own; what it embeds claims ids on the
+			   outbox's host */
+			items := []any{}
+			for k, f := range actFields {
+				if k < 2 {
+					items = append(items, g.embed(evil, f))
+				}
+			}
+			/* everything in this page is served by the other host now */
+			items = append(items, g.restamp(acts[len(acts)/2:], evil).([]any)...)
+			pageDoc := map[string]any{"type": "OrderedCollectionPage", "orderedItems": items}
+			if r.Intn(3) == 0 {
+				pageDoc["id"] = g.url(evil, "opage2")
+			}
+			ref := g.serve(evil, "opage2", pageDoc)
+			if r.Intn(3) == 0 {
+				ref = g.redirect(home, "opage2r", ref)
+			}
+			page2ref = ref
+		}
+		outboxPage1 := map[string]any{"type": "OrderedCollectionPage", "orderedItems": acts[:len(acts)/2], "next": page2ref}
 		outboxFields := map[string]any{"type": "OrderedCollection", "id": g.url(home, "outbox"), "totalItems": len(acts), "first": outboxPage1}
 		outboxURL := g.serve(home, "outbox", outboxFields)
 		alice["outbox"] = outboxURL
